@@ -46,9 +46,29 @@ NAMES = ["x", "y", "n"]
 
 
 def rand_grammar(rng, depth, opts=None):
-    """opts: dict(names=bool, actions=bool, stops=bool, fwd=bool, extra=bool, ws=bool)"""
-    o = dict(names=True, actions=False, stops=False, fwd=True, extra=True, ws=False, fatal=False)
+    """opts: dict(names=bool, actions=bool, stops=bool, fwd=bool, extra=bool, ws=bool, each=bool)
+    each=True also produces Each ('&') nodes over 2..4 pairwise distinct operands: plain / Opt / ZeroOrMore / OneOrMore /
+    Group operands (repetition bodies non-nullable)"""
+    o = dict(names=True, actions=False, stops=False, fwd=True, extra=True, ws=False, fatal=False, each=False)
     o.update(opts or {})
+
+    def each_node(d):
+        ops = []
+        for _ in range(rng.choice([2, 2, 3, 3, 4])):
+            for _try in range(6):
+                body = go(max(1, d - 1))
+                shape = rng.choice(["plain", "plain", "opt", "star", "plus", "group", "optd"])
+                if shape in ("star", "plus") and nullable(body, ENV0):
+                    body = ("and", rng.choice([A, B, ("word", "ab"), ("lit", "x")]), body)
+                op = body if shape == "plain" else (("optd", "D", body) if shape == "optd" else (shape, body))
+                if o["names"] and rng.random() < 0.3:
+                    op = (rng.choice(["name", "namestar"]), rng.choice(NAMES), op)
+                if op not in ops:
+                    ops.append(op)
+                    break
+        if len(ops) < 2:
+            ops = [A, ("opt", B)]
+        return ("each",) + tuple(ops)
 
     def leaf():
         pool = list(LEAVES if o["fwd"] else LEAVES[:-1])
@@ -59,6 +79,8 @@ def rand_grammar(rng, depth, opts=None):
     def go(d):
         if d <= 1 or rng.random() < 0.15:
             g = leaf()
+        elif o["each"] and rng.random() < 0.3:
+            g = each_node(d)
         else:
             r = rng.random()
             if r < 0.35:
@@ -140,7 +162,17 @@ def sample_input(rng, g, env, depth=6):
     if k == "lineend": return rng.choice(["\n", ""])
     if k == "and": return "".join(sp() + S(x) for x in g[1:])
     if k == "andstop": return "".join(sp() + S(x) for x in g[2:])
-    if k in ("mf", "or", "each"): return S(rng.choice(g[1:]))
+    if k in ("mf", "or"): return S(rng.choice(g[1:]))
+    if k == "each":
+        # the operands in a random order, now and then one of them repeated or left out
+        ops = list(g[1:])
+        rng.shuffle(ops)
+        r = rng.random()
+        if r < 0.25:
+            ops.insert(rng.randint(0, len(ops)), rng.choice(ops))
+        elif r < 0.35:
+            ops.pop(rng.randrange(len(ops)))
+        return "".join(sp() + S(x) for x in ops)
     if k in ("opt",): return S(g[1]) if rng.random() < 0.6 else ""
     if k == "optd": return S(g[2]) if rng.random() < 0.6 else ""
     if k in ("star", "starstop"): return "".join(sp() + S(g[1]) for _ in range(rng.randint(0, 3)))
